@@ -316,6 +316,15 @@ def rule_order_preserved(ctx, rep):
         ok = cs.kind == "source" and cs.name.endswith(".values") and not any(w in ("sorted", "set", "frozenset", "reversed") for w in cs.wrappers)
     rep.check("R-ORDER-PRESERVED", cod.qname, cod.loc(), ok, "codemods-property",
               "CodemodRegistry.codemods is no longer the insertion-ordered list of the id-keyed registry dict")
+    rule_exec_order(ctx, rep, "R-ORDER-PRESERVED", declare=False)
+
+
+def rule_exec_order(ctx, rep, rule_id="R-EXEC-ORDER", declare=True):
+    """Shared with C03 / C09: the codemods execute in the order of the very list the report is compiled from (successive diffs of
+    one file compose only in execution order)."""
+    if declare:
+        rep.rule(rule_id, "run() hands the same, un-reassigned selection to apply_codemods and compile_results, and apply_codemods loops "
+                          "once over that parameter itself (no sorting / regrouping of the execution order)", 2)
     # run(): same object to both consumers, unmodified
     run = ctx.prog.func(RUN)
     rr = ctx.resolver(run)
@@ -335,13 +344,14 @@ def rule_order_preserved(ctx, rep):
         and set(consumers) == {"apply_codemods", "compile_results"}
         and rr._assign_counts.get(next(iter(sel_names), ""), 0) == 1
     )
-    rep.check("R-ORDER-PRESERVED", run.qname, run.loc(), ok, "selection-threading",
+    rep.check(rule_id, run.qname, run.loc(), ok, "selection-threading",
               f"run() does not pass the single, un-reassigned result of match_codemods to both apply_codemods and compile_results ({consumers})")
     ac = ctx.prog.func("codemodder.codemodder.apply_codemods")
     loops = [n for n in walk_no_nested(ac.node) if isinstance(n, ast.For)]
     ok = len(loops) == 1 and isinstance(loops[0].iter, ast.Name) and loops[0].iter.id in ac.params()
-    rep.check("R-ORDER-PRESERVED", ac.qname, ac.loc(loops[0]) if loops else ac.loc(), ok, "apply-loop",
+    rep.check(rule_id, ac.qname, ac.loc(loops[0]) if loops else ac.loc(), ok, "apply-loop",
               "apply_codemods does not loop once over its codemods parameter in the given order")
+
 
 
 def rule_cli_exclusive(ctx, rep):
